@@ -42,7 +42,9 @@ def random_crystal(rng, number, choice, nsites=None, occupancies=False):
 
 def same_structure(a, b, fmt, prec):
     """a: original, b: reloaded.  Returns None or a description of the difference."""
-    pa, pb = np.asarray(a.unit_cell.parameters), np.asarray(b.unit_cell.parameters)
+    # lengths and angles taken from the cells themselves (not through UnitCell.parameters, which the writer also uses)
+    pa = np.r_[np.asarray(a.unit_cell.lengths, dtype=float), np.degrees(np.asarray(a.unit_cell.angles, dtype=float))]
+    pb = np.r_[np.asarray(b.unit_cell.lengths, dtype=float), np.degrees(np.asarray(b.unit_cell.angles, dtype=float))]
     if not np.allclose(pa, pb, rtol=0, atol=prec["cell"]):
         return {"cell_parameters": pb.tolist(), "expected": pa.tolist()}
     if b.space_group.international_tables_number != a.space_group.international_tables_number:
@@ -326,6 +328,48 @@ def bounded(ctx):
         for f in os.listdir(tmp):
             os.unlink(os.path.join(tmp, f))
         os.rmdir(tmp)
+    # fixed cases in every seed: (a) all 530 settings through .res with one site (the LATT / SYMM description of every setting);
+    # (b) low-symmetry cells with coincident edge lengths; (c) POSCAR of large and strongly oblique cells (lattice entries >= 100 or <= -10)
+    from chmpy.crystal import Crystal, UnitCell, SpaceGroup, AsymmetricUnit
+    from chmpy import Element
+    tmp = tempfile.mkdtemp(prefix="c10b_")
+    try:
+        with contextlib.redirect_stdout(io.StringIO()):
+            for number, choice in settings:
+                evals += 1
+                try:
+                    c = random_crystal(rng, number, choice, nsites=1)
+                    orig, back = roundtrip(c, "res", tmp)
+                    d = same_structure(orig, back, "res", PREC["res"])
+                except Exception as e:  # noqa
+                    d = {"exception": repr(e)[:200]}
+                if d and len(fails) < 3:
+                    fails.append({"input": {"setting": f"{number}:{choice}", "format": "res", "n_sites": 1}, "observed": d,
+                                  "clause": "every tabulated setting survives a SHELX .res round trip (LATT + SYMM description)", "key": "res-all-settings"})
+            r = np.pi / 2
+            special_cells = [("monoclinic b == c", 14, "b1", [7.3, 9.1, 9.1], [r, np.radians(103.0), r]), ("monoclinic a == b", 14, "b1", [8.2, 8.2, 11.0], [r, np.radians(97.0), r]),
+                             ("triclinic a == b", 2, "", [6.5, 6.5, 9.0], [np.radians(83), np.radians(99), np.radians(71)]),
+                             ("triclinic a == c, alpha == gamma", 2, "", [6.5, 8.0, 6.5], [np.radians(80), np.radians(99), np.radians(80)]),
+                             ("orthorhombic b == c", 19, "", [5.0, 7.7, 7.7], [r, r, r]),
+                             ("large box", 1, "", [120.0, 150.0, 210.0], [r, r, r]), ("long oblique", 2, "", [9.0, 12.0, 45.0], [np.radians(112), np.radians(95), np.radians(100)])]
+            for label, number, choice, L, A in special_cells:
+                for fmt in ("cif", "res", "poscar"):
+                    evals += 1
+                    try:
+                        c = Crystal(UnitCell.from_lengths_and_angles(L, A), SpaceGroup(number, choice=choice),
+                                    AsymmetricUnit([Element["C"], Element["O"]], np.array([[0.11, 0.27, 0.33], [0.62, 0.05, 0.81]])))
+                        orig, back = roundtrip(c, fmt, tmp)
+                        d = same_unit_cell_atoms(orig, back) if fmt == "poscar" else same_structure(orig, back, fmt, PREC[fmt])
+                    except Exception as e:  # noqa
+                        d = {"exception": repr(e)[:200]}
+                    if d and len(fails) < 3:
+                        fails.append({"input": {"cell": label, "lengths": L, "angles_deg": np.degrees(A).round(3).tolist(), "format": fmt}, "observed": d,
+                                      "clause": "save then load reproduces the cell parameters and structure", "key": f"{fmt}-special-cell"})
+    finally:
+        for f in os.listdir(tmp):
+            os.unlink(os.path.join(tmp, f))
+        os.rmdir(tmp)
     ctx.add_bounded("crystal.Crystal.save_load/bounded/whole_files", f"{len(todo)} settings ({'seeded sample incl. origin-choice-1 and R/H settings' if ctx.tier == 'quick' else 'all 530'}) x "
-                    "CIF / RES / POSCAR x crystal built in memory or loaded from a CIF first; cells compatible with the setting, 1-8 sites with standard labels, positions in [-0.3, 1.3]",
+                    "CIF / RES / POSCAR x crystal built in memory or loaded from a CIF first; cells compatible with the setting, 1-8 sites with standard labels, positions in [-0.3, 1.3]; "
+                    "plus in every seed: all 530 settings through .res with one site, low-symmetry cells with coincident edges, a 120x150x210 box and a long oblique cell in all three formats",
                     evals, len(distinct), fails, rule="distinct (setting, format, provenance)")
